@@ -556,7 +556,7 @@ def rule_enginefill(ctx) -> RuleResult:
 # (what np.nanmax does, with a warning) poisons the combine: no entry matches the NaN extreme and the position of an unrelated element comes
 # out.  In every engine module, the function bound to nanmax / nanmin / nansum / nanprod (directly or through partial(func=...)) contains no
 # store of NaN into its result.
-_FILL_HONOURING = {"nanmax", "nanmin", "nansum", "nanprod", "max", "min"}
+_FILL_HONOURING = {"nanmax", "nanmin", "nansum", "nanprod"}
 
 
 def rule_allnanfill(ctx) -> RuleResult:
@@ -585,4 +585,44 @@ def rule_allnanfill(ctx) -> RuleResult:
                            f"'{norm(a)[:60]}' writes NaN into the result of {sorted(kernels)}: the blueprints pass the identity of their combine step as fill_value, and the "
                            "arg-reduction blueprints combine with the NaN-propagating max / min -- a block whose members of a group are all NaN must hand on that fill, or "
                            "nanargmax / nanargmin return the position of an unrelated element")
+    return res
+
+
+# ---------------------------------------------------------------------------------------------
+# R-NUMBAMINMAX (C01): kernels of an external library that are known NOT to keep the NaN discipline their name promises are wrapped.
+# Frozen fact (confirmed once by running numpy_groupies 0.11 in this environment, like the NumPy tables): aggregate_numba's "max" and "min"
+# skip NaN, whereas NumPy's max / min -- and numpy_groupies' own numpy implementation, the flox engine and numbagg's fall-back -- propagate
+# it.  The engine-neutral module aggregate_npg serves both numpy_groupies back ends, so its bindings for these names must restore the
+# propagation for engine == "numba": a function that tests the engine and masks groups containing NaN (np.isnan + an "any" aggregation).
+_EXTERNAL_NAN_SKIPPING = {"numba": ("max", "min")}
+
+
+def rule_numbaminmax(ctx) -> RuleResult:
+    res = RuleResult("R-NUMBAMINMAX", "external kernels known to break the NaN discipline of their name are wrapped", min_instances=2)
+    u = ctx.prog.units.get("aggregate_npg")
+    if u is None:
+        raise AnalysisError("aggregate_npg is gone (anchor)")
+    binds = {}
+    for st in u.tree.body:
+        if isinstance(st, ast.Assign) and len(st.targets) == 1 and isinstance(st.targets[0], ast.Name) and isinstance(st.value, ast.Call) \
+                and norm(st.value.func) in ("partial", "functools.partial") and st.value.args:
+            binds[st.targets[0].id] = norm(st.value.args[0])
+        if isinstance(st, ast.FunctionDef):
+            binds[st.name] = st.name
+    for engine, names in _EXTERNAL_NAN_SKIPPING.items():
+        for name in names:
+            target = binds.get(name)
+            f = ctx.prog.funcs.get(f"aggregate_npg.{target}") if target else None
+            ok = False
+            if f is not None:
+                tests_engine = any(isinstance(c, ast.Compare) and norm(c.left) == "engine" and any(isinstance(k, ast.Constant) and k.value == engine for k in c.comparators)
+                                   for c in ast.walk(f.node))
+                masks_nan = any(isinstance(c, ast.Call) and norm(c.func) in ("np.isnan", "isnull", "pd.isnull") for c in ast.walk(f.node))
+                ok = tests_engine and masks_nan
+            res.inst(f"aggregate_npg.{name} (engine {engine!r}): bound to {target or 'nothing: falls back to the raw numpy_groupies kernel'}; restores NaN propagation: {ok}",
+                     f"{engine}|{name}")
+            if not ok:
+                res.report(f"aggregate_npg|external-kernel-skips-nan|{engine}|{name}", f"flox/aggregate_npg.py:{f.node.lineno if f is not None else 1}", "aggregate_npg",
+                           f"engine='{engine}' runs numpy_groupies' numba '{name}', which skips NaN; the name promises NumPy's NaN-propagating {name}: "
+                           f"groupby_reduce([1., nan, 2.], [0, 0, 0], func='{name}', engine='{engine}') returns the {name} of the valid members where every other engine returns NaN")
     return res
